@@ -229,9 +229,43 @@ def check_term(ws, case):
     return [], info
 
 
+def gen_selfterm(slices):
+    for before in (0, 2):                      # statements between terminate and the scheduling point
+        for point in ("sleep 0", "sleep 0.001", "uiSleep 0.001", "sleep 0.05"):
+            for who in ("thisScript", "handle"):       # the spawned child names itself through _thisScript / through the global handle
+                for s in slices:
+                    yield [before, point, who, s]
+
+
+def check_selfterm(ws, case):
+    """A script that terminates ITSELF keeps running to its next scheduling point (sleep / end of slice) and nothing after it."""
+    before, point, who, slice_len = case
+    body = 'diag_log str ["s", 0]; terminate %s; %s%s; diag_log str ["after", 1]; diag_log str ["after", 2]' % (
+        "_thisScript" if who == "thisScript" else "H", "".join('diag_log str ["b", %d]; ' % k for k in range(before)), point)
+    main = 'H = [] spawn { %s }; sleep 0.2; diag_log str ["d1", scriptDone H]' % body
+    r = run(ws, [main], slice_len, 100)
+    if r["outcome"] != "ok":
+        return [("C12|self-terminate|%s" % r.get("kind", r["outcome"]), "%r: %s" % (case, r.get("kind", r["outcome"])), None, case)], {"n": 1}
+    res = r["result"]
+    info = {"n": 1, "nontrivial": 1, "states": len(res["slices"]), "transitions": sum(x["n"] for x in res["slices"]), "executions": 1}
+    seq = [I.parse_value(m["msg"].split("[DIAG_LOG] ", 1)[1]) for m in res["log"] if m["code"] == 60019]
+    names = [x[0] for x in seq]
+    if "s" not in names:
+        return [("C12|self-terminate|script-did-not-start", "nothing logged: %r" % [m["msg"][:80] for m in res["log"] if m["lvl"] <= 1][:1], None, case)], info
+    if "after" in names:
+        return [("C12|terminate|self-terminated-script-ran-after-scheduling-point", "%s terminated itself, reached `%s` and still executed %d statements after it (slice %d)" % (
+            who, point, names.count("after"), slice_len), None, case)], info
+    if True:
+        d1 = [x for x in seq if x[0] == "d1"]
+        if not d1 or d1[0][1] is not True:
+            return [("C12|scriptDone|false-after-self-terminate", "scriptDone of a script that terminated itself is %r 0.2 s later" % (d1[0][1] if d1 else None), None, case)], info
+    return [], info
+
+
 def spaces(tier):
     q = tier == "quick"
     sl = [1, 2, 3, 7, 150] if q else SLICES
     return [Space("fairness", gen_fair([2, 3] if q else [2, 3, 4], sl, [100] if q else [100, 2000]), check_fair, variant="fast", describe="script sets x slice lengths: turn trace invariants + per-script results"),
             Space("sleep", lambda: gen_sleep(sl), check_sleep, variant="fast", describe="sleep durations x competitors x slices x ticks"),
-            Space("scriptdone-terminate", lambda: gen_term(sl), check_term, variant="fast", describe="child length x delay before terminate x slices")]
+            Space("scriptdone-terminate", lambda: gen_term(sl), check_term, variant="fast", describe="child length x delay before terminate x slices"),
+            Space("self-terminate", lambda: gen_selfterm(sl), check_selfterm, variant="fast", describe="a script terminates itself, then reaches a sleep: statements before x kind of scheduling point x (_thisScript / own handle) x slices")]
